@@ -439,13 +439,13 @@ pub fn gen_cases(ctx: &Ctx) -> Vec<Case> {
     let widths: Vec<u32> = if quick {
         vec![1, 2, 8, 95, 96, 97, 192, 193, 256, 1024, 2048]
     } else {
-        (1..=12).chain([31, 32, 33, 63, 64, 65, 95, 96, 97, 127, 128, 191, 192, 193, 255, 256, 257, 287, 288, 289, 383, 384, 385, 511, 512, 1023, 1024, 1025, 1536, 2047, 2048]).collect()
+        (1..=9).chain([31, 32, 33, 64, 95, 96, 97, 128, 191, 192, 193, 256, 288, 289, 384, 512, 1023, 1024, 1025, 1536, 2047, 2048]).collect()
     };
     for &w in &widths {
         let vs = values(w, &mut rng);
         for (i, a) in vs.iter().enumerate() {
             for (j, b) in vs.iter().enumerate() {
-                if (quick && (i + 2 * j) % 4 != 0) || (!quick && w > 512 && (i + j) % 3 != 0) {
+                if (quick && (i + 2 * j) % 4 != 0) || (!quick && (i + j) % 2 != 0) || (!quick && w > 512 && (i + j) % 4 != 0) {
                     continue;
                 }
                 let w2 = if (i + j) % 2 == 0 { w } else { (w / 2).max(1) };
@@ -517,7 +517,7 @@ pub fn gen_cases(ctx: &Ctx) -> Vec<Case> {
         push("chain", ops);
     }
     // random programs
-    for _ in 0..(if quick { 10 } else { 100 }) {
+    for _ in 0..(if quick { 10 } else { 40 }) {
         let w = rng.gen_range(1..600u32);
         let mut ops = vec![];
         let mut n = 0;
@@ -650,9 +650,9 @@ pub fn run(ctx: &mut Ctx) {
         }
         if verdict == "sat" && matches!(case.kind.as_str(), "arith" | "divrem" | "sub" | "modexp") {
             let e = tampered.entry(case.kind.clone()).or_insert(0);
-            if *e < if crate::small(ctx) { 1 } else { 5 } {
+            if *e < if crate::small(ctx) { 1 } else { 2 } {
                 *e += 1;
-                tamper(ctx, case, &r.public, if crate::small(ctx) { 40 } else { 250 });
+                tamper(ctx, case, &r.public, if crate::small(ctx) { 40 } else { 120 });
             }
         }
     }
